@@ -38,25 +38,8 @@ func (e *AccessorExpr) Evaluate(engine *Engine, input interface{}, args []*State
 		}
 		returnType := e.getReturnType(accessor, reflect.New(t).Interface())
 
-		// The type of the result is not known when the elements of the slice
-		// do not all have to be the same type (such as Warnings or Nodes). In
-		// this case each of the elements has to be evaluated on its own.
-		if returnType == nil {
-			results := []interface{}{}
-
-			for i := 0; i < in.Len(); i++ {
-				result, err := e.Evaluate(engine, in.Index(i).Interface(), nil)
-				if err != nil {
-					return nil, err
-				}
-
-				results = append(results, result)
-			}
-
-			return results, nil
-		}
-
-		results := reflect.MakeSlice(reflect.SliceOf(returnType), 0, 0)
+		// Each of the elements is evaluated on its own.
+		results := []interface{}{}
 
 		for i := 0; i < in.Len(); i++ {
 			result, err := e.Evaluate(engine, in.Index(i).Interface(), nil)
@@ -64,10 +47,35 @@ func (e *AccessorExpr) Evaluate(engine *Engine, input interface{}, args []*State
 				return nil, err
 			}
 
-			results = reflect.Append(results, reflect.ValueOf(result))
+			results = append(results, result)
 		}
 
-		return results.Interface(), nil
+		// The type of the result is not known when the elements of the slice
+		// do not all have to be the same type (such as Warnings or Nodes), and
+		// an element that is itself a slice may not evaluate to the type
+		// returned by the method of that slice (such as the Individuals of
+		// ChildNodes that are empty). A slice of the return type is only used
+		// if all the results fit into it.
+		if returnType != nil {
+			typedResults := reflect.MakeSlice(reflect.SliceOf(returnType), 0, len(results))
+			allAssignable := true
+
+			for _, result := range results {
+				value := reflect.ValueOf(result)
+				if !value.IsValid() || !value.Type().AssignableTo(returnType) {
+					allAssignable = false
+					break
+				}
+
+				typedResults = reflect.Append(typedResults, value)
+			}
+
+			if allAssignable {
+				return typedResults.Interface(), nil
+			}
+		}
+
+		return results, nil
 	}
 
 	var err error
